@@ -13,6 +13,7 @@
 //	g.new <ps> <total> <files|-> <index> <seed> <prefill>          torrent + GetRight/Hoffman web seeds on a local server
 //	g.fetch <offset> <length> <resp/resp/...>  tor.webseedGR; resp per file chunk: pad | T | status;cl;crhex;fileoff:len:junk;fin
 //	h.fetch <offset> <length> <status;cl;len;junk;fin>            tor.webseedH
+//	g.maybe                                    tor.maybeWebseed (hole, reservation, fetch goroutine) against an honest server
 //	pcr <hex>                                  webseed.parseContentRange
 //
 // Stream byte i of a writer case is pat(seed, off+i), i.e. the piece's reference content, so a
@@ -36,6 +37,7 @@ import (
 	"sync"
 	"time"
 
+	"github.com/jech/storrent/config"
 	"github.com/jech/storrent/peer"
 	"github.com/jech/storrent/tor"
 	"github.com/jech/storrent/tor/piece"
@@ -828,6 +830,7 @@ type server struct {
 	spec map[int]respSpec // by file index (-1: hoffman)
 	reqs []reqLog
 	segR *vhlib.Rand
+	honest bool
 }
 
 var rangeRe = regexp.MustCompile(`^bytes=(\d+)-(\d+)$`)
@@ -858,7 +861,17 @@ func (sv *server) handle(w http.ResponseWriter, r *http.Request) {
 	sv.reqs = append(sv.reqs, rl)
 	sp, ok := sv.spec[idx]
 	segR := sv.segR
+	honest := sv.honest
 	sv.mu.Unlock()
+	if !ok && honest && st != nil && rl.first >= 0 && idx >= 0 {
+		// an honest server: exactly the requested bytes of the file
+		flen := st.total
+		if st.files != nil {
+			flen = st.files[idx].length
+		}
+		sp, ok = respSpec{status: 206, cl: "-", cr: fmt.Sprintf("bytes %d-%d/%d", rl.first, rl.last, flen),
+			fileoff: int(rl.first), n: int(rl.last - rl.first + 1), fin: 'e'}, true
+	}
 	if !ok || st == nil {
 		http.Error(w, "no script", 599)
 		return
@@ -1244,6 +1257,111 @@ func (s *state) checkFetch(kindp string) {
 	}
 }
 
+// gMaybe drives the real maybeWebseed (hole selection, reservation, fetch goroutine) against
+// an honest server.
+func (s *state) gMaybe() string {
+	cpp := s.ps / CS
+	// the property's notion of the hole: first missing block up to the next present one
+	vp := s.t.Pieces.VerifPiece(s.index)
+	nb := nblocks(s.pl)
+	first := -1
+	for b := 0; b < nb; b++ {
+		if !vp.Bitmap.Get(b) {
+			first = b
+			break
+		}
+	}
+	end := first
+	for first >= 0 && end < nb && !vp.Bitmap.Get(end) {
+		end++
+	}
+	s.srv.mu.Lock()
+	s.srv.st, s.srv.spec, s.srv.reqs, s.srv.honest = s, map[int]respSpec{}, nil, true
+	s.srv.segR = vhlib.NewRand(uint64(s.seed) + 99)
+	s.srv.mu.Unlock()
+	defer func() { s.srv.mu.Lock(); s.srv.honest = false; s.srv.mu.Unlock() }()
+	ws := webseed.New(s.srv.ts.URL+"/gr/", true)
+	s.t.VerifSetWebseeds([]webseed.Webseed{ws})
+	before := s.t.VerifInFlight()
+	s.events = nil
+	s.snap = s.t.Pieces.VerifPieceData(s.index)
+	ctx, cancel := context.WithTimeout(context.Background(), 30*time.Second)
+	defer cancel()
+	var ok bool
+	pn := vhlib.Recover(func() { ok = tor.VerifMaybeWebseed(ctx, s.t, s.index, false) })
+	if pn != "" {
+		s.c.Violate("panic:maybeWebseed", pn, caseOps())
+		return "panic"
+	}
+	after := s.t.VerifInFlight() // the reservation is made before the fetch goroutine starts
+	var res []int
+	for c := range after {
+		if after[c] != before[c] {
+			res = append(res, c-int(s.index)*cpp)
+		}
+	}
+	expectOK := first >= 0 && vp.State == 0 && !s.t.Pieces.VerifDeleted()
+	if ok != expectOK {
+		s.c.Violate("maybewebseed-decision", fmt.Sprintf("returned %v with first hole at block %d, state %d", ok, first, vp.State), caseOps())
+	}
+	if !ok {
+		if len(res) != 0 {
+			s.c.Violate("maybewebseed-reserved-without-fetch", fmt.Sprint(res), caseOps())
+		}
+		s.c.Count("m:none", "no hole / piece not open", true)
+		return "ok=0 res=- data=0 drop=none"
+	}
+	o := first * CS
+	l := (end - first) * CS
+	if end == nb {
+		l = s.pl - o
+	}
+	// oracle: exactly the blocks of the hole are reserved, once each
+	want := []int{}
+	for b := first; b < end; b++ {
+		want = append(want, b)
+	}
+	if fmt.Sprint(res) != fmt.Sprint(want) {
+		s.c.Violate("maybewebseed-reservation", fmt.Sprintf("reserved %v, hole is blocks %v", res, want), caseOps())
+	}
+	for c := range after {
+		if after[c] > before[c]+1 {
+			s.c.Violate("maybewebseed-reservation:twice", fmt.Sprintf("chunk %d", c), caseOps())
+		}
+	}
+	// wait for the fetch goroutine: its events tile [o, o+l)
+	deadline := time.Now().Add(20 * time.Second)
+	sum := 0
+	for sum < l && time.Now().Before(deadline) {
+		for _, e := range s.drain() {
+			sum += int(e.count)
+		}
+		if sum < l {
+			time.Sleep(200 * time.Microsecond)
+		}
+	}
+	if sum < l {
+		s.c.Violate("hang:maybeWebseed", fmt.Sprintf("events cover %d of %d bytes after 20 s", sum, l), caseOps())
+	}
+	s.off0, s.cnt0 = o, l
+	A := int(s.index)*s.ps + o
+	s.fetchLo, s.fetchHi = A, A+l
+	// what the honest server sent is the reference content of the non-padding files, zeros for padding
+	s.legit = map[int]int{}
+	for x := A; x < A+l; x++ {
+		s.legit[x] = int(s.ref[x])
+	}
+	s.allHonest = true
+	s.checkFetch("maybewebseed")
+	data, drop := fetchObs(s.events)
+	s.c.Count(fmt.Sprintf("m:fetch:%dblocks", len(res)), fmt.Sprintf("hole %d+%d", o, l), true)
+	first0 := 0
+	if len(res) > 0 {
+		first0 = res[0]
+	}
+	return fmt.Sprintf("ok=1 res=%d+%d data=%d drop=%s", first0, len(res), data, drop)
+}
+
 func (s *state) hFetch(offset, length int, rs string) string {
 	f := strings.Split(rs, ";")
 	if len(f) != 5 || len(f[4]) != 1 {
@@ -1448,6 +1566,11 @@ func (s *state) exec(op string) string {
 			return bad
 		}
 		return s.gFetch(o, l, f[3])
+	case "g.maybe":
+		if s.kind != "g" {
+			return bad
+		}
+		return s.gMaybe()
 	case "h.fetch":
 		if len(f) != 4 || s.kind != "g" {
 			return bad
@@ -1470,6 +1593,7 @@ func (s *state) exec(op string) string {
 var resetOps = map[string]bool{"w.new": true, "g.new": true, "fc": true, "pcr": true}
 
 func main() {
+	config.DefaultUseWebseeds = true
 	c := vhlib.Init("c14")
 	// vhlib seeds splitmix64 linearly (seed k+1 replays seed k's draws shifted by one): decorrelate
 	c.R = vhlib.NewRand(vhlib.Fnv64([]byte(fmt.Sprintf("c14-seed-%d", c.Seed))))
